@@ -161,4 +161,46 @@ theorem glif_roundtrip_partial_no_object_libs (hc : Codec f rd nc ok) {g : Glyph
 
 end
 
+/-! ### non-vacuity of the codec hypotheses and of `ValidGlyph` -/
+
+def ok0 : Nat → Prop := fun b => b = 0
+def nc0 : Color → Color := fun _ => ⟨0, 0, 0, 0⟩
+
+theorem codec0 : Codec F0 R0 nc0 ok0 := by
+  constructor
+  · intro b hb
+    cases hb
+    rfl
+  · intro c
+    rfl
+
+def g0 : Glyph :=
+  { name := ['a'], codepoints := [65],
+    anchors := [{ x := 0, y := 0, name := some ['t'], color := some ⟨0, 0, 0, 0⟩, ident := some ['i'] }],
+    contours := [{ points := [{ x := 0, y := 0, typ := .line, smooth := false, name := none, ident := some ['p'] }], ident := none }],
+    components := [{ base := ['b'], transform := { xScale := 0, xyScale := 0, yxScale := 0, yScale := 0, xOffset := 0, yOffset := 0 }, ident := some ['k'] }],
+    lib := [(['k'], PV.str ['v'])] }
+
+theorem valid_g0 : ValidGlyph ok0 g0 := by
+  refine ⟨by decide, rfl, rfl, ?_, by decide, ?_, ?_, ?_, ?_, ?_, by decide⟩
+  · intro c hc; simp [g0] at hc; subst hc; exact ⟨by decide, by decide⟩
+  · intro i hi; simp [g0] at hi
+  · intro a ha; simp [g0] at ha; subst ha
+    exact ⟨rfl, rfl, by intro n hn; cases hn; decide, by intro i hi; cases hi; decide⟩
+  · intro a ha; simp [g0] at ha
+  · intro c hc; simp [g0] at hc; subst hc
+    refine ⟨?_, by decide, by simp, by intro i hi; cases hi⟩
+    intro p hp; simp at hp; subst hp
+    exact ⟨rfl, rfl, (by intro n hn; cases hn), (by intro i hi; cases hi; decide)⟩
+  · intro k hk; simp [g0] at hk; subst hk
+    exact ⟨by decide, ⟨rfl, rfl, rfl, rfl, rfl, rfl⟩, by intro i hi; cases hi; decide⟩
+
+-- the round-trip theorem applies to `g0` (its hypotheses are satisfiable) and the glyph comes back
+example : parseGlif R0 (encodeGlif F0 g0) = .ok (normG nc0 g0) :=
+  glif_roundtrip_partial_no_object_libs codec0 valid_g0
+    ⟨by intro a ha; simp [g0] at ha; subst ha; rfl, by intro a ha; simp [g0] at ha,
+     by intro c hc; simp [g0] at hc; subst hc; exact ⟨rfl, by intro p hp; simp at hp; subst hp; rfl⟩,
+     by intro a ha; simp [g0] at ha; subst ha; rfl⟩
+    (by decide) (by simp [g0, F0, reindentDict, reindentPV, reindent]) (by intro n hn; cases hn) ⟨Or.inr rfl, Or.inr rfl⟩
+
 end Glif
